@@ -1845,7 +1845,6 @@ def static_items(family, b):
                     yield (f"old:{lab}:word{k}", "old-style alphabet", "word alphabet", lambda m=m, k=k: m.alphabet.get_word_alphabet(k), observe_old_alphabet, True)
         for i in (1, 2, 11):
             yield (f"old:codon:{i}", "old-style alphabet", "codon alphabet of a genetic code", lambda i=i: old_gc.get_code(i).get_alphabet(), observe_old_alphabet, True)
-            yield (f"old:codon-gapped:{i}", "old-style alphabet", "codon alphabet of a genetic code", lambda i=i: old_gc.get_code(i).get_alphabet(include_gap_motif=True), observe_old_alphabet, True)
         for lab in labels:
             m = new_mt.get_moltype(lab)
             for j, _ in enumerate(m.iter_alphabets()):
@@ -1905,7 +1904,7 @@ def static_items(family, b):
         nan = {("a", "b"): 0.1, ("b", "a"): 0.1, ("a", "c"): float("nan"), ("c", "a"): float("nan"), ("b", "c"): 0.3, ("c", "b"): 0.3}
         yield ("invalid", "DistanceMatrix", "with an invalid (nan) distance", lambda: DistanceMatrix(dict(nan)), observe_dm, True)
         yield ("invalid:dropped", "DistanceMatrix", "after drop_invalid", lambda: DistanceMatrix(dict(nan)).drop_invalid(), observe_dm, True)
-        yield ("from alignment", "DistanceMatrix", "computed by Alignment.distance_matrix", lambda: make_aligned_seqs(NT3, moltype="dna").distance_matrix(calc="tn93"), observe_dm, True)
+        yield ("from alignment", "DistanceMatrix", "computed by Alignment.distance_matrix", lambda: make_aligned_seqs(NT3, moltype="dna").distance_matrix(calc="pdist"), observe_dm, True)
         yield ("from alignment:hamming", "DistanceMatrix", "computed by Alignment.distance_matrix", lambda: make_aligned_seqs(NT3, moltype="dna").distance_matrix(calc="hamming"), observe_dm, True)
     elif family == "tables":
         from vf.props import c20_tables as c20
